@@ -29,6 +29,25 @@ CLAIMED["C14"] = {
     "design_ref": "DESIGN.md §5 C14",
 }
 
+CLAIMED["C18"] = {
+    "text": "Totality of the arithmetic and conversion helpers the property anchors, for ALL machine values (Kani, loop-free harnesses over kani::any(): complete, not bounded): every "
+            "apply_binary_op / apply_unary_op of bool, f64, i64, u64 against every scalar operand and operator neither panics nor overflows, and an integer result equals the mathematical result "
+            "(no silent wrap); as_integer_cast / as_usize_cast never change the value they convert (no silent saturation); span_text never panics. "
+            "Totality of the pest parser, of Display and of whole stages on arbitrary strings, and termination, are NOT decided (no contract can be attached to generated code; Kani cannot execute it).",
+    "note": "Trusted: CBMC's bit-precise model of Rust integers and IEEE doubles; fmt::format stubbed on error paths; Kani's float NaN/overflow checks ignored (not panics). "
+            "64x64-bit multiplication exactness runs in the thorough tier only.",
+    "technique": "Kani harness-level contracts (assume/assert) over full-domain symbolic scalars on the real functions, injected into a scratch copy",
+    "design_ref": "DESIGN.md §5 C18",
+}
+CLAIMED["C19"] = {
+    "text": "Operator typing only: for every operator and every pair of scalar primitives with symbolic payloads, if the static check can_apply_binary_op / can_apply_unary_op accepts the operand kinds then "
+            "the dynamic application returns a value or a DATA error (Overflow, DivisionByZero), never an unsupported-operation / incompatible-type error (Kani, full domain, complete). "
+            "Soundness of function signatures, scopes, destructuring, unknown functions and undeclared variables is NOT claimed (an induction over the whole parser IL with dyn callbacks).",
+    "note": "Trusted: CBMC's model of Rust integers and IEEE doubles. Non-scalar operand kinds (String, Tuple, Graph, Iterable) are not generated.",
+    "technique": "Kani full-domain harnesses relating can_apply_* to apply_* on the real scalar implementations",
+    "design_ref": "DESIGN.md §5 C19",
+}
+
 NOT_APPLICABLE = {
     "C03": "quantifies over source texts through the pest-generated parser and an external MILP search; every in-repo step that can carry a contract is covered by C01/C02/C04/C05; no further function exists to attach an obligation to",
     "C06": "relates two parses; the expansion engine works on parser IL with dyn Fn callbacks, scope frames and evaluated iterables that Verus does not accept and Kani cannot execute; its specification would be a formal semantics of the whole language",
@@ -36,5 +55,5 @@ NOT_APPLICABLE = {
     "C17": "the export is text read by an independent reader; a contract would need a formal LP-format reader and a string theory for format!/push_str output; Kani cannot execute float formatting",
     "C20": "sensitivities are computed inside clarabel/good_lp; rooc only forwards them by name, so no contract on repository code decides the sign convention",
     "C01": PENDING, "C02": PENDING, "C04": PENDING, "C05": PENDING, "C08": PENDING, "C10": PENDING, "C11": PENDING, "C12": PENDING,
-    "C13": PENDING, "C15": PENDING, "C16": PENDING, "C18": PENDING, "C19": PENDING,
+    "C13": PENDING, "C15": PENDING, "C16": PENDING, 
 }
